@@ -164,6 +164,7 @@ def uninstall(saved):
 B64 = ["QUFB", "QkJC", "Q0ND", "RUVF", "RERE"]        # distinct base64 messages for the X.509 elements; the last is the root
 XNAMES = ["quoting_enclave", "platform_ca", "intermediate_ca", "root_ca"]
 ROOT_B64 = B64[4]
+SHADOW_B64 = "WFhY"
 
 
 def report_body(report_data):
@@ -182,7 +183,8 @@ def place(digest, where):
     return filler + filler
 
 
-def _chain(now, nb0, na0, nb1, na1, nb2, na2, nb3, na3, v0, v1, v2, v3, p256, vak, vq, wak, wq, w, now2=5, vtop2=True, second=False):
+def _chain(now, nb0, na0, nb1, na1, nb2, na2, nb3, na3, v0, v1, v2, v3, p256, vak, vq, wak, wq, w, now2=5, vtop2=True, second=False,
+           shadow=None):
     depth = part() + 1
     nbs, nas, vs = [nb0, nb1, nb2, nb3][:depth], [na0, na1, na2, na3][:depth], [v0, v1, v2, v3][:depth]
     world = World()
@@ -215,6 +217,14 @@ def _chain(now, nb0, na0, nb1, na1, nb2, na2, nb3, na3, v0, v1, v2, v3, p256, va
     for i in range(depth):
         els.append({"name": XNAMES[i], "type": "x509_pem", "message": B64[i],
                     "signed_by": XNAMES[i + 1] if i + 1 < depth else "sgx_root"})
+    if shadow is not None:
+        # the file ALSO carries an element named like the root of trust: a self-signed certificate of the file's author, under
+        # which the topmost certificate "verifies" (verdict `shadow`) - the caller's root of trust must still be the judge
+        world.certs[pem_of(SHADOW_B64)] = TokCert(world, SHADOW_B64.encode(), -10 ** 9, 10 ** 9)
+        world.right[(("x509key", SHADOW_B64.encode()), b"SIG:" + SHADOW_B64.encode(), b"TBS:" + SHADOW_B64.encode())] = True
+        top_b64 = B64[depth - 1].encode()
+        world.right[(("x509key", SHADOW_B64.encode()), b"SIG:" + top_b64, b"TBS:" + top_b64)] = shadow
+        els.append({"name": "sgx_root", "type": "x509_pem", "message": SHADOW_B64, "signed_by": "sgx_root"})
     doc = {"version": 2, "targets": ["quote"], "elements": els}
     saved = install(world)
     try:
@@ -224,7 +234,10 @@ def _chain(now, nb0, na0, nb1, na1, nb2, na2, nb3, na3, v0, v1, v2, v3, p256, va
                 wfn = c_boundary(getattr(c2, name))
                 wfn._verif_native = True
                 setattr(c2, name, wfn)
-        cert = c2.HSMCertificateV2(doc)
+        try:
+            cert = c2.HSMCertificateV2(doc)
+        except ValueError:
+            return shadow is not None          # (a file with an element named like the root may be refused outright)
         root = c2.HSMCertificateV2ElementX509({"name": "sgx_root", "message": ROOT_B64, "signed_by": "sgx_root"})
         got = cert.validate_and_get_values(root)
         def judge(got, now_, vs_):
@@ -313,3 +326,19 @@ def revalidation(now: int, now2: int, nb: int, na: int, vtop: bool, vtop2: bool,
     nbs[depth - 1], nas[depth - 1], vs[depth - 1] = nb, na, vtop
     return _chain(now, nbs[0], nas[0], nbs[1], nas[1], nbs[2], nas[2], nbs[3], nas[3], vs[0], vs[1], vs[2], vs[3],
                   True, True, True, 0, 0, w, now2, vtop2, True)
+
+
+@obligation(tier="quick", parts=3, timeout=200, part_names=["1 X.509 element", "2 X.509 elements", "3 X.509 elements"],
+            bounds="a chain that is valid except possibly for the topmost certificate's signature under the caller's root of trust (verdict "
+                   "symbolic), in a file that also carries a self-signed element named like the root of trust under which the topmost "
+                   "certificate verifies or not (symbolic): the verdict follows the caller's root alone (or the file is refused)",
+            examples=[(0, dict(vroot=False, vshadow=True, w=False)), (2, dict(vroot=False, vshadow=True, w=True)), (1, dict(vroot=True, vshadow=False, w=False))])
+def shadow_root(vroot: bool, vshadow: bool, w: bool) -> bool:
+    """
+    post: _
+    """
+    depth = part() + 1
+    vs = [True] * 4
+    vs[depth - 1] = vroot
+    big = 10 ** 9
+    return _chain(5, -big, big, -big, big, -big, big, -big, big, vs[0], vs[1], vs[2], vs[3], True, True, True, 0, 0, w, shadow=vshadow)
